@@ -9,6 +9,18 @@ HERE = os.path.dirname(os.path.dirname(os.path.abspath(__file__)))
 sys.path.insert(0, HERE)
 
 CLAIMED = {
+    'C05': dict(
+        category='other',
+        text='Decides the two length clauses only: sizes are composed symbolically across action -> generateFromFormat -> '
+             'registry -> data source (linear forms over the configuration fields substituted through the parameters): '
+             'a data source gets exactly datasource_message_max_length+1 bytes (buffer and announced size), the buffer is '
+             'emptied before every call; the message buffer is log_message_max_length+1, is only extended through the '
+             'bounded append whose write obligation is discharged by the A4 engine; ident/path templates use fixed '
+             'buffers with their own size as limit. Valid for every value of the two limits.',
+        design_ref='DESIGN.md §5 C05',
+        note='NOT decided: exactness of the expansion (replacement order, literal copy, error texts, emitted exactly '
+             'when it fits). Two off-by-one defects on the pinned tree were replayed and repaired.',
+        technique='static analysis: interprocedural symbolic size composition (linear forms) + A4 obligation of the append helper'),
     'C02': dict(
         category='other',
         text='Memory-safety discipline of everything reachable from the interposers: every write sink (sized and '
